@@ -23,4 +23,4 @@ REQUIRED_CLASSES = {t: ["ro:export_geff:ok", "ro:export_csv:ok", "ro:save_tracks
                         "cfg:seg_with_per_axis_pos"]
                     for t in ("quick", "thorough")}
 run_shard, replay, minimise = make(C16Oracle, quick=(320, 24), thorough=(3200, 40), profile="general",
-                                   cfg_kwargs={"allow_seg_axes": True})
+                                   cfg_kwargs={"allow_seg_axes": True, "allow_stray": True})
